@@ -54,4 +54,16 @@ def runBlock (r : Rules) (prices : List Nat) (now : Int) :
       (out.1, res.fee :: out.2)
     | (cur', _) => runBlock r prices now rest cur'
 
+/-- the same block executed on the layered state (one `TState` over the parent storage): every
+transaction runs in a view over the block's visible map and commits into the block diff. -/
+def runBlockB (r : Rules) (prices : List Nat) (now : Int) :
+    List ((Key → Nat) × Tx) → Block → Block × List Nat
+  | [], b => (b, [])
+  | (scope, tx) :: rest, b =>
+    match processTxB r .morpheus prices now scope tx b with
+    | (b', .done res) =>
+      let out := runBlockB r prices now rest b'
+      (out.1, res.fee :: out.2)
+    | (b', _) => runBlockB r prices now rest b'
+
 end HyperModel.Token
